@@ -4,6 +4,7 @@ mod crdt;
 mod hlc;
 mod node;
 mod rpc;
+mod storage;
 
 use common::Args;
 
@@ -21,6 +22,8 @@ fn main() {
         "C12-family" => rpc::c12_family_child(&args),
         "C13" => rpc::c13(&args),
         "C15" => node::c15(&args),
+        "C17" => storage::c17(&args),
+        "C17-lmdb-batch" => storage::c17_lmdb_batch(&args),
         "C16" => node::c16(&args),
         other => {
             eprintln!("unknown monitor {other}");
